@@ -510,7 +510,29 @@ def oracle(c):
         t.tessellate(_synthetic(d['su'], d['sv']), size_u=d['su'], size_v=d['sv'])
         if [v.id for v in t.vertices] != list(range(d['su'] * d['sv'])):
             return "QuadTessellate: vertex ids not consecutive"
-        return _check_quads([list(f.data) for f in t.faces], d['su'], d['sv'])
+        why = _check_quads([list(f.data) for f in t.faces], d['su'], d['sv'])
+        if why:
+            return why
+        # the same tessellation as a user obtains it: through the surface's tessellation component
+        from geomdl import BSpline
+        s = BSpline.Surface()
+        s.degree_u = 1; s.degree_v = 2
+        s.set_ctrlpts(qpts([[F(0), F(0), F(0)], [F(0), F(1), F(2)], [F(0), F(3), F(1)], [F(2), F(0), F(1)], [F(2), F(1), F(-1)], [F(3), F(3), F(0)]]), 2, 3)
+        s.knotvector_u = qs([0, 0, 1, 1]); s.knotvector_v = qs([0, 0, 0, 1, 1, 1])
+        s.sample_size_u = d['su']; s.sample_size_v = d['sv']
+        s.tessellator = tessellate.QuadTessellate()
+        try:
+            s.tessellate()
+        except Exception as e:
+            return "Surface.tessellate() with a QuadTessellate component (sample size %dx%d) raises %s: %s" % (d['su'], d['sv'], type(e).__name__, str(e)[:80])
+        vs, fs = s.tessellator.vertices, s.tessellator.faces
+        if [list(f.data) for f in fs] != [list(f.data) for f in t.faces]:
+            return "quad mesh obtained through the surface differs from the direct one"
+        ev = s.evalpts
+        for i, v in enumerate(vs):
+            if [_f(x) for x in v.data] != [_f(x) for x in ev[i]]:
+                return "quad mesh through the surface: vertex %d is not the evaluated grid point %d" % (i, i)
+        return None
     if k in ('pos', 'pos-unnorm'):
         s = _build(d, d['su'], d['sv'], normalize=not d.get('unnorm'))
         try:
